@@ -5,7 +5,7 @@
    HISTORICAL code, kept as regression knowledge: they say why the repairs were needed). *)
 From Coq Require Import Permutation.
 From PV Require Import Model.Transform Model.Simplify Model.TransformX Proofs.CircuitP Proofs.ComponentsP
-  Proofs.TransformP Proofs.FlattenP Proofs.BubbleP Proofs.SimplifyP Proofs.PermP Proofs.WitnessP.
+  Proofs.TransformP Proofs.FlattenP Proofs.BubbleP Proofs.SimplifyP Proofs.PermP Proofs.SeqP Proofs.WitnessP.
 Local Open Scope nat_scope.
 
 (* ================= inversion ================= *)
@@ -90,6 +90,19 @@ Theorem C11_decompose_perms_preserves : forall (R : cring) (ii : R) m (fc : fcir
   meq m (fmat ii m (decompose_perms fc)) (fmat ii m fc).
 Proof. exact decompose_perms_preserves. Qed.
 Print Assumptions C11_decompose_perms_preserves.
+
+(* decompose_perms as a transformation of circuits (merged or nested swap networks, built afresh at every call):
+   same matrix; and a transformation applied AFTER it sees a circuit with the operand's value -- inverting the
+   decomposed circuit yields the adjoint / J U J of the original matrix *)
+Theorem C11_decompose_tree_preserves : forall (R : cring) (ii : R) merge (t : tcomp R), twf R ii t -> perms_ok R t ->
+  meq (tw t) (tmat ii (tdecompose merge t)) (tmat ii t).
+Proof. exact tdecompose_mat. Qed.
+Print Assumptions C11_decompose_tree_preserves.
+Theorem C11_decompose_then_inverse : forall (R : cring) (ii : R) merge v h (t : tcomp R), kconj ii = kopp ii ->
+  twf R ii t -> perms_ok R t -> (forall l, In l (leaves R t) -> leaf_real R l) ->
+  meq (tw t) (tmat ii (circuit_inverse_now v h (tdecompose merge t))) (expected v h (tw t) (tmat ii t)).
+Proof. exact decompose_then_inverse. Qed.
+Print Assumptions C11_decompose_then_inverse.
 
 (* ================= flattening and regrouping ================= *)
 (* HISTORICAL: _flatten before 47d2b926 dropped the enclosing offset; the full statement now holds: C11_flatten_preserves *)
